@@ -127,6 +127,10 @@ func parseECPrivateKey(namedCurveOID *asn1.ObjectIdentifier, der []byte) (key *e
 	if k.Cmp(curveOrder) >= 0 {
 		return nil, errors.New("x509: invalid elliptic curve private key value")
 	}
+	if k.Sign() == 0 || (curve == sm2.P256() && new(big.Int).Add(k, big.NewInt(1)).Cmp(curveOrder) == 0) {
+		// zero is no private key on any curve; SM2 additionally excludes n-1 (GB/T 32918.1: d in [1, n-2])
+		return nil, errors.New("x509: invalid elliptic curve private key value")
+	}
 	priv := new(ecdsa.PrivateKey)
 	priv.Curve = curve
 	priv.D = k
